@@ -666,7 +666,9 @@ _dispatch_once_wait(dispatch_once_gate_t dgo)
 	for (;;) {
 		os_atomic_rmw_loop(&dgo->dgo_once, old_v, new_v, relaxed, {
 			if (likely(old_v == DLOCK_ONCE_DONE)) {
-				os_atomic_rmw_loop_give_up(return);
+				// pairs with the release in _dispatch_once_mark_done(): the
+				// caller is about to use what the initializer has set up
+				os_atomic_rmw_loop_give_up_with_fence(acquire, return);
 			}
 #if DISPATCH_ONCE_USE_QUIESCENT_COUNTER
 			if (DISPATCH_ONCE_IS_GEN(old_v)) {
